@@ -4,7 +4,7 @@
 package types
 
 //@ func NewStateMachine assumed "sync.Pool.Get returns an object made by New or one previously Put: a non-nil *StateMachine"
-//@   ensures result != nil
+//@   ensures result != nil && fresh(result)
 
 //@ func FreeStateMachine assumed "sync.Pool.Put retains the object; no other effect"
 //@   requires fsm != nil
